@@ -597,19 +597,19 @@ func (d *driver) finish(kf *knownFile) int {
 func (d *driver) writeEvidence(wall float64) {
 	a := &d.agg
 	cov := map[string]any{
-		"evaluations":         a.evaluations,
-		"distinct_nontrivial": len(a.nontrivial),
-		"rule":                d.spec.rule,
-		"samples":             a.samples,
-		"cases":               a.cases,
-		"counters":            a.counters,
-		"runs":                a.runs,
-		"worker_deaths":       a.crashes,
-		"race_report_blocks":  a.raceBlocks,
-		"race_reports_distinct": len(a.raceDistinct),
+		"evaluations":             a.evaluations,
+		"distinct_nontrivial":     len(a.nontrivial),
+		"rule":                    d.spec.rule,
+		"samples":                 a.samples,
+		"cases":                   a.cases,
+		"counters":                a.counters,
+		"runs":                    a.runs,
+		"worker_deaths":           a.crashes,
+		"race_report_blocks":      a.raceBlocks,
+		"race_reports_distinct":   len(a.raceDistinct),
 		"known_findings_observed": a.known,
-		"inconclusive":        len(a.inconclusive),
-		"exhaustive":          false,
+		"inconclusive":            len(a.inconclusive),
+		"exhaustive":              false,
 	}
 	if len(a.samples) == 0 {
 		cov["samples"] = []any{"(no sample recorded)"}
